@@ -228,12 +228,14 @@ Theorem C01_swagger_load_terminates : forall d, Verif.Total.ImportRec.inline_inc
 Proof. exact Verif.Total.ImportRecProps.load_terminates. Qed.
 Print Assumptions C01_swagger_load_terminates.
 
-(* loadTypeSchema leaves the in-progress marks exactly as it found them (every `refMap[ref] = false` is undone by its
-   deferred setDefined, no call clears a mark of a caller): what makes the order of properties / definitions irrelevant
-   for "circular reference detected" *)
+(* a loadTypeSchema that succeeds leaves the in-progress marks exactly as it found them (every `refMap[ref] = false` is
+   undone by its setDefined - deferred for array items, right after the part for allOf since c310a5e -, no call clears a
+   mark of a caller): what makes the order of properties / definitions irrelevant for "circular reference detected".
+   A failing call leaves the mark of the failing allOf part behind; all its callers return the error. *)
 Theorem C01_swagger_marks_restored : forall d fuel n rm k,
+  Verif.Total.ImportRec.lres_ok (fst (Verif.Total.ImportRec.load fuel d n rm)) = true ->
   Verif.Total.ImportRec.inprog (snd (Verif.Total.ImportRec.load fuel d n rm)) k = Verif.Total.ImportRec.inprog rm k.
-Proof. exact (fun d fuel n rm => Verif.Total.ImportRecProps.load_frame d fuel n rm). Qed.
+Proof. exact (fun d fuel n rm k H => Verif.Total.ImportRecProps.load_frame d fuel n rm H k). Qed.
 Print Assumptions C01_swagger_marks_restored.
 
 (* the seeded regression's document (A allOf [B]; B {inner: object allOf [A]}) is within the theorem and is refused *)
